@@ -20,6 +20,9 @@ type c09Case struct {
 	// peer drops the connection and the client resumes.
 	Segments [][]string `json:"segments"` // items: m p iq-result iq-error iq-get iq-set r a features enabled success
 	Chunks   []int      `json:"chunks,omitempty"`
+	// Before: inbound histories of earlier connections of the same Client on which the server did not offer stream
+	// management (each ends with a drop); the stream-managed session that follows must start counting at zero.
+	Before [][]string `json:"before,omitempty"`
 }
 
 var c09Items = []string{"m", "m", "p", "iq-result", "iq-error", "iq-get", "iq-set", "r", "r", "r", "a", "a", "features", "enabled", "success"}
@@ -42,6 +45,17 @@ func genC09(t *rapid.T) c09Case {
 		}
 		seg = append(seg, "r") // every segment ends with an acknowledgement request
 		c.Segments = append(c.Segments, seg)
+	}
+	if rapid.IntRange(0, 3).Draw(t, "before") == 0 {
+		nb := rapid.IntRange(1, 2).Draw(t, "nbefore")
+		for b := 0; b < nb; b++ {
+			n := rapid.IntRange(0, 8).Draw(t, "nb")
+			seg := make([]string, 0, n)
+			for i := 0; i < n; i++ {
+				seg = append(seg, rapid.SampledFrom([]string{"m", "p", "iq-result", "iq-get", "features"}).Draw(t, "bitem"))
+			}
+			c.Before = append(c.Before, seg)
+		}
 	}
 	if rapid.Bool().Draw(t, "chunked") {
 		k := rapid.IntRange(1, 3).Draw(t, "nchunks")
@@ -97,7 +111,34 @@ func runC09(c c09Case) vh.Result {
 			}
 		}
 		defer report()
-		idx := pc.Index
+		if pc.Index < len(c.Before) {
+			// a connection without stream management: feed, make sure everything was consumed, drop
+			out := pc.Negotiate(&peer.Script{Mechs: []string{"PLAIN"}}, 10*time.Second)
+			if !out.Established {
+				o.viol = append(o.viol, vh.V("harness-not-established", "non-SM connection %d not established (steps %v)", pc.Index, out.Steps))
+				return
+			}
+			for k, it := range c.Before[pc.Index] {
+				if isStanzaItem(it) {
+					pc.Send(inboundStanza(it, fmt.Sprintf("b%d-%d", pc.Index, k), 0))
+				} else {
+					pc.Send(nonzaXML(it))
+				}
+			}
+			// the client answers <r/> even without stream management: the answer proves everything before it was read
+			pc.Send("<r xmlns='urn:xmpp:sm:3'/>")
+			for {
+				ev := pc.NextElem(5 * time.Second)
+				if ev.Kind != "elem" || ev.Name.Local == "a" {
+					break
+				}
+			}
+			o.done = true
+			report()
+			pc.GracefulClose(time.Second)
+			return
+		}
+		idx := pc.Index - len(c.Before)
 		if idx >= len(c.Segments) {
 			pc.Close()
 			return
@@ -176,7 +217,8 @@ func runC09(c c09Case) vh.Result {
 		res.Fail("harness-connect", "Connect: %v", err)
 		return res
 	}
-	for seg := 0; seg < len(c.Segments); seg++ {
+	totalConns := len(c.Before) + len(c.Segments)
+	for seg := 0; seg < totalConns; seg++ {
 		var o c09Obs
 		select {
 		case o = <-obsc:
@@ -188,7 +230,7 @@ func runC09(c c09Case) vh.Result {
 		if len(o.viol) > 0 || !o.done {
 			break
 		}
-		if seg+1 < len(c.Segments) {
+		if seg+1 < totalConns {
 			// wait for the loss to be noticed, then resume
 			if !waitFor(5*time.Second, func() bool { return rec.count(xmpp.StateDisconnected) >= seg+1 }) {
 				res.Fail("harness-no-disconnect", "segment %d: connection dropped by the peer but no Disconnected event within 5 s", seg)
@@ -210,6 +252,9 @@ func runC09(c c09Case) vh.Result {
 		}
 	}
 	res.NonTrivial = stanzas > 0 || afterNonStanza || len(c.Segments) > 1
+	if len(c.Before) > 0 {
+		res.Label("earlier-connections-without-sm")
+	}
 	if len(c.Segments) > 1 {
 		res.Label("resumption")
 	}
@@ -221,7 +266,7 @@ func runC09(c c09Case) vh.Result {
 
 var c09 = vh.Define(&vh.Def[c09Case]{
 	Property: "C09", Name: "smcount",
-	Rule: "inbound histories over {message, presence, iq result/error/get/set, <r/>, <a/>, stream features, <enabled/>, SASL success}, 0-60 elements per connection, optionally written in chunks of generated sizes, on 1-4 successive connections of one client (the peer drops the connection and the client resumes); a real Client with stream management negotiated against the scripted peer; oracle = wire truth kept by the peer: h of every <a/> written by the client equals the number of stanzas the peer had sent before the <r/>, h of every <resume/> equals the total on the session and previd is the id from <enabled/>; non-trivial = the history has a stanza, an <r/> after a non-stanza element, or a resumption",
+	Rule: "inbound histories over {message, presence, iq result/error/get/set, <r/>, <a/>, stream features, <enabled/>, SASL success}, 0-60 elements per connection, optionally written in chunks of generated sizes, on 1-4 successive connections of one client (the peer drops the connection and the client resumes), in a quarter of the cases preceded by 1-2 connections of the same client on which the server did not offer stream management (the stream-managed session must then start at zero); a real Client with stream management negotiated against the scripted peer; oracle = wire truth kept by the peer: h of every <a/> written by the client equals the number of stanzas the peer had sent before the <r/>, h of every <resume/> equals the total on the session and previd is the id from <enabled/>; non-trivial = the history has a stanza, an <r/> after a non-stanza element, or a resumption",
 	Quick: 2000, Thorough: 60000, Journal: true,
 	Gen: genC09, Run: runC09,
 })
